@@ -32,7 +32,8 @@ EXPLANATION = (
     " (R12) consecutive vertex numbers follow snode_post; psd_complete gathers with the ordering and scatters with its inverse."
     " (R13) compact augmentation of an undecomposed cone shifts the indices of b and the row indices of A by the same offset."
     " (R14) wherever the original cones and the sparsity patterns are walked side by side (standard and compact augmentation, dimension count) a pattern is consumed only after its orig_index was found equal to the cone's index - an undecomposed PSD cone has no pattern."
-    ' (R15) get_block_indices pushes only pairs with row <= col (tested on the path or built as (min, max)); (R16) the compact reversal resizes the clique buffer to the clique before sorting / iterating it as a whole.')
+    ' (R15) get_block_indices pushes only pairs with row <= col (tested on the path or built as (min, max)); (R16) the compact reversal resizes the clique buffer to the clique before sorting / iterating it as a whole.'
+    ' (R17) get_row_index searches rowval[l .. min(column end, l + k_shift + c)] with c >= 1.')
 ASSUMPTIONS = ['rustc MIR construction and trait resolution are correct',
                'the sdp code is analysed by type-checking only (cargo check with empty blas-src/lapack-src); it is never linked or run']
 
@@ -503,9 +504,31 @@ def overlap_average(rep, F, tag):
         zs = [c for c in g.calls if c.callee.name == 'zip']
         a = [canon(g.sym_operand(x)) for x in zs[0].args] if len(zs) == 1 else []
         R.check(len(a) == 2 and a[0].endswith('.0') and a[1].endswith('.1') and a[0][:-2] == a[1][:-2], 'zip-components' + tag, 'decomp_reverse_standard zips %s' % a, g.loc())
+        # z[ri] /= nnz, or z[ri] = z[ri] / nnz: the overlapped dual entry is divided by its own count
+        ok = False
+        seen_ = []
         dv = [c for c in g.calls if c.callee.name == 'div_assign']
-        R.check(len(dv) == 1 and canon(g.sym_operand(dv[0].args[0])).startswith('index_mut(arg2.z, ') and canon(g.sym_operand(dv[0].args[0])).endswith('@Some.0.0)') and canon(g.sym_operand(dv[0].args[1])).endswith('@Some.0.1'),
-                'average' + tag, 'the average is %s' % [[canon(g.sym_operand(x))[-40:] for x in c.args] for c in dv], g.loc())
+        for c in dv:
+            t0, t1 = canon(g.sym_operand(c.args[0])), canon(g.sym_operand(c.args[1]))
+            seen_.append((t0[-40:], t1[-40:]))
+            if len(dv) == 1 and t0.startswith('index_mut(arg2.z, ') and t0.endswith('@Some.0.0)') and t1.endswith('@Some.0.1'):
+                ok = True
+        if not dv:
+            sts = []
+            for val, ret, ev, tr in Walker(g, cut_loops=True).leaves():
+                for e in ev:
+                    if e[0] == 'store' and ('arg2.z' in str(e[1])):
+                        sts.append((str(e[1]), str(e[2])))
+            sts = sorted(set(sts))
+            seen_ = [(a_[-40:], b_[-60:]) for a_, b_ in sts]
+            if len(sts) == 1:
+                t, v = sts[0]
+                m_ = re.fullmatch(r'(?:index_mut\(arg2\.z, (.*)\)|arg2\.z\[(.*)\])', t)
+                I = (m_.group(1) or m_.group(2)) if m_ else None
+                if I is not None and I.endswith('@Some.0.0'):
+                    base = I[:-len('.0')]
+                    ok = v in ('div(index(arg2.z, %s), %s.1)' % (I, base), 'div(arg2.z[%s], %s.1)' % (I, base))
+        R.check(ok, 'average' + tag, 'the average is %s' % seen_, g.loc())
 
     R.guard(body)
 
@@ -739,6 +762,54 @@ def clique_buffer_sized(rep, F, tag):
     R.guard(body)
 
 
+def row_search_window(rep, F, tag):
+    """get_row_index looks for the stored entry with row value k_shift = row_range.start + k inside a column whose rows are sorted and distinct, searching only
+    rowval[l..u].  The entry, if present, sits at a position <= l + k_shift, so the window must reach l + k_shift + 1 (or the column end): one short, and the
+    (0,0) entry of a PSD cone that is the first cone keeps its placeholder row (the transformed A is malformed; the constructor panics)."""
+    R = rep.rule('C18.R17', 'get_row_index: the search window reaches min(column end, column start + k_shift + 1)')
+
+    def body():
+        from .c14 import _txt_eval, _NoDerivative
+        from engine.linform import RatF, P_atom, P_const
+        fs = F.find(name='get_row_index')
+        if len(fs) != 1:
+            raise AnchorError('get_row_index matched %d functions' % len(fs))
+        f = fs[0]
+        nz = lambda t: t.replace('withoverflow', '').replace(').0', ')')
+        pp = [c for c in f.calls if c.callee.name == 'partition_point']
+        if not R.check(len(pp) == 1, 'one-search' + tag, '%d partition_point calls' % len(pp), f.loc()):
+            return
+        src = nz(canon(f.sym_operand(pp[0].args[0])))
+        m = re.fullmatch(r'index\(arg2, Range::Range\(arg4\.start, (.*)\)\)', src)
+        if not R.check(m is not None, 'window-shape' + tag, 'the search runs over %s, expected rowval[row_range_col.start .. u]' % src[:120], f.loc()):
+            return
+        u = m.group(1)
+        mm = re.fullmatch(r'min\((.*)\)', u)
+        ops = split_args(u) if mm else [u]
+        A = lambda n_: RatF(P_atom(n_))
+        scal = {'arg4.start': A('cs'), 'arg4.end': A('ce'), 'arg3.start': A('rs'), 'arg1': A('k')}
+        ok = False
+        try:
+            others = [o for o in ops if o != 'arg4.end']
+            if len(others) == 1 and (len(ops) == 1 or 'arg4.end' in ops):
+                got = _txt_eval(re.sub(r'\b(\d+)_usize\b', r'\1', others[0]), scal, {})
+                diff = got + (A('cs') + A('rs') + A('k')) * RatF(P_const(-1))
+                # diff must be a constant >= 1
+                if not diff.n:
+                    c = 0
+                elif len(diff.n) == 1 and list(diff.n.keys())[0] == () and diff.d == P_const(1):
+                    c = list(diff.n.values())[0]
+                else:
+                    c = None
+                ok = c is not None and c >= 1
+        except (_NoDerivative, AttributeError):
+            ok = False
+        R.check(ok, 'window-reaches-entry' + tag, 'the search window ends at %s: it must reach column start + (row_range.start + k) + 1 (the entry with row value k_shift can sit '
+                'that far into a sorted column)' % u[:120], f.loc())
+
+    R.guard(body)
+
+
 def run(ctx, rep, tier):
     stage_rules(ctx, rep, 'C18.R1')
     for cfg in (CONFIGS_THOROUGH if tier == 'thorough' else CONFIGS):
@@ -757,6 +828,7 @@ def run(ctx, rep, tier):
         pattern_owner(rep, F, tag)
         block_indices_upper(rep, F, tag)
         clique_buffer_sized(rep, F, tag)
+        row_search_window(rep, F, tag)
         # the decomposed problem is equivalent only if the merged cliques still form a clique tree (C17.R8 re-run)
         from . import c17, c04
         c17.tree_from_graph(c04._Ren(rep, 'C17.R8', 'C18.R10'), F, tag)
